@@ -8,6 +8,7 @@ use std::io::{self, BufRead, Write};
 use std::panic::{catch_unwind, AssertUnwindSafe};
 
 mod arrays;
+mod spectrum;
 mod util;
 
 fn run_case(line: &str, out: &mut String) {
@@ -17,6 +18,7 @@ fn run_case(line: &str, out: &mut String) {
     }
     match toks[0] {
         "get" | "view" | "axisiter" | "indices" | "sum" | "getaxis" => arrays::run(&toks, out),
+        "fold" | "marg" | "project" | "pmf" | "binom" => spectrum::run(&toks, out),
         other => out.push_str(&format!("UNKNOWN-OP {other}")),
     }
 }
